@@ -17,7 +17,7 @@ for d in sorted(glob.glob(os.path.join(ROOT, "C*-*"))):
     if det:
         cell = ", ".join(det) + (" (missed before strengthening: %s)" % ", ".join(missed_first) if missed_first else "")
     elif runs:
-        cell = "**not detected** " + m.get("gap", "")
+        cell = ("(obsolete) " if m.get("obsolete") else "**not detected** ") + m.get("gap", "")
     else:
         cell = "(not run yet)"
     rows.append("| %s | %s | %s | %s | %s |" % (m.get("id", os.path.basename(d)), m.get("property", "?"), m.get("change", "?").replace("|", "\\|"),
